@@ -147,28 +147,29 @@ ELF_COMMON = [
 ]
 INFO["C11"] = {
     "functions": ["elf::load (real)", "parse_elf_header32", "parse_program_header_table32", "parse_section_header_table32 (real nom parsers, inside load and on their own)"],
-    "bounds": "BOUNDED CLAIM on enumerated layouts - (a) the real elf::load on two concrete 516-byte ELF32-BE layout skeletons ([LOAD, NOTE, LOAD] and [LOAD, LOAD, NOTE] program headers, six "
-              "shuffled section headers, .got of two entries inside the first segment, .symtab, no .stack section) with ALL segment content bytes (24), both GOT entry values (all 2^64 "
+    "bounds": "BOUNDED CLAIM on enumerated layouts - (a) the real elf::load on three concrete 520-byte ELF32-BE layout skeletons ([LOAD, NOTE, LOAD] with a gap after the first segment, "
+              "[LOAD, LOAD, NOTE], and [LOAD, NOTE, LOAD] with the second segment starting exactly where the first segment and .got end; six "
+              "shuffled section headers, .got of two entries at the end of the first segment, .symtab, .stack) with ALL segment content bytes (24), both GOT entry values (all 2^64 "
               "pairs, sums wrapping modulo 2^32 included) and the ___exit value symbolic: segment bytes at base + p_vaddr, bss / gap / neighbouring bytes zero (enumerated probes), GOT "
               "entries relocated exactly once (big-endian, modulo 2^32), on-chip RAM / vector area / I/O registers untouched (enumerated probes); (b) the three record parsers on their own "
               "over fully symbolic bytes: every field of the ELF header (52 bytes), of two program headers (64 bytes) and of two section headers (80 bytes) equals the big-endian value at "
               "the ELF32 specification's offset, for all byte values",
-    "outside": "segment offsets / addresses / sizes, the number of segments and sections, the position and size of .got other than the two skeletons (a symbolic layout makes every DRAM "
-               "store a symbolic-index store: out of reach, see C09); .got with more than two entries; files with a .stack section together with .symtab (that combination produced "
-               "spurious pointer failures in CBMC; the .stack arm is decided in C12's harnesses on files without .symtab); zero-fill and outside-DRAM are probed at enumerated addresses only",
+    "outside": "segment offsets / addresses / sizes, the number of segments and sections, the position and size of .got other than the three skeletons (a symbolic layout makes every DRAM "
+               "store a symbolic-index store: out of reach, see C09); .got with more than two entries; zero-fill and outside-DRAM are probed at enumerated addresses only; deallocation-"
+               "precondition failures inside Kani's own C library model (kani_lib.c:__rust_dealloc) are not counted for these harnesses (config-dependent CBMC artefact, DESIGN.md section 3)",
     "assumptions": ELF_COMMON,
     "level_text": "Bounded model checking (Kani/CBMC) of the real elf::load on two concrete layout skeletons with symbolic contents, plus the real nom record parsers on fully symbolic bytes. "
                   "The layout dimension of the property (arbitrary offsets/sizes/section order) is NOT covered beyond the two skeletons; within a skeleton the SAT verdict covers every content byte and GOT value.",
-    "level_note": "BOUNDED to two layout skeletons. Trusted: Kani, CBMC, CaDiCaL, the read_elf stub, the string-table contract stub, the reduced DRAM array under Kani, the anyhow model.",
+    "level_note": "BOUNDED to three layout skeletons. Trusted: Kani, CBMC, CaDiCaL, the read_elf stub, the string-table contract stub, the reduced DRAM array under Kani, the anyhow model.",
     "technique": "Kani/CBMC bounded model checking of elf::load on concrete layout skeletons with symbolic contents + of the nom record parsers on symbolic bytes (SAT)",
 }
 INFO["C12"] = {
     "functions": ["elf::load (real): entry, .got pointer, .stack arm (SP, TCB gap, argv table and strings), .symtab arm (___exit)", "parse_symbol_table32 (real, on its own)"],
-    "bounds": "BOUNDED CLAIM on enumerated layouts and argument strings - the real elf::load on the C11 skeletons: (a) file without .stack: ER2 = load base, ER5 = base + .got address, exit "
-              "address = ___exit value + base for every ___exit value that does not wrap; (b) files without .symtab, .stack size and image end as call-site constants covering the residues "
+    "bounds": "BOUNDED CLAIM on enumerated layouts and argument strings - the real elf::load on the C11 skeletons: ER2 = load base, ER5 = base + .got address, exit "
+              "address = ___exit value + base for every ___exit value that does not wrap, with ___exit at symbol index 0, 1 or 2; .stack size and image end as call-site constants covering the residues "
               "(image end mod 4, stack size mod 4) = (1,3), (2,2) in quick and (3,1), (1,1), (0,0) in thorough, program headers [LOAD, NOTE, LOAD] and [LOAD, LOAD, NOTE] (a non-load "
               "header last), argument strings \"\", \"a \\tb\", \" ab\" as call-site constants: ER7 = align4(image end + stack size) - 8 with image end = highest PT_LOAD extent, ER0 = argc, ER1 = argv "
-              "= align4(stack end + 88), argc pointers + null, \"prog.elf\" and the words NUL-terminated and byte-exact, regions ordered and inside DRAM; (c) parse_symbol_table32 on 32 "
+              "= align4(stack end + 88), argc pointers + null, \"prog.elf\" and the words NUL-terminated and byte-exact, regions ordered and inside DRAM; parse_symbol_table32 on 32 "
               "fully symbolic bytes (all six fields of two entries)",
     "outside": "every layout / stack size / argument string other than the enumerated ones: the addresses of the argument block depend on them, and a symbolic address is a symbolic-index "
                "store into DRAM (out of reach); the solver's universal quantification here covers only segment bytes, GOT values and the ___exit value - the layout arithmetic is decided at "
